@@ -9,11 +9,13 @@
        forall c atts lates, atts <> [] -> complete c (last atts []) (run c atts lates)
    (every subset of {stdout file, stderr file, output variable, script}, every number of attempts, every chunking,
    interleaving and size) is FALSE of the faithful model: F12a, F12b, F12c - the _refuted theorems below, each
-   replayed on the real code by the check.  C12_complete_partial is the strongest statement proved: one attempt
-   (no retry happened), and `output:` unset or at most half a pipe (32768 bytes) towards the capture pipe. *)
+   replayed on the real code by the check.  Proved: C12_complete_partial - one attempt (no retry happened), any
+   configuration, `output:` unset or at most half a pipe (32768 bytes) towards the capture pipe; and
+   C12_complete_retry_direct_partial - any number of retries when neither `stdout:` nor `output:` is configured and
+   the teardowns come in the usual order. *)
 From Coq Require Import List NArith.
 Import ListNotations.
-From BD.Log Require Import Model Proofs.
+From BD.Log Require Import Model Proofs ProofsRetry.
 
 (* For every configuration, every chunking / interleaving of the two streams and every size: when the worker of a
    step that needed no retry is gone, no write blocked, the file named by State.Log holds exactly the bytes that
@@ -23,6 +25,16 @@ Theorem C12_complete_partial : forall (A : Type) (c : cfg) (cs : list (chunk A))
   (c_output c = false \/ length (log_of A c cs) <= HALFPIPE) -> complete A c cs (run A c [cs] []).
 Proof. exact complete_single. Qed.
 Print Assumptions C12_complete_partial.
+
+(* Any number of retries is fine as long as the wiring is the direct one (no `stdout:` file, no `output:` variable:
+   every chunk goes straight to the file through ReadFrom, nothing is ever buffered) and every stale worker tears down
+   before the next attempt is set up (lates = []): all configurations of {stderr file, script}, every number of
+   attempts, every chunking, interleaving and size. *)
+Theorem C12_complete_retry_direct_partial : forall (A : Type) (c : cfg),
+  c_stdout c = false -> c_output c = false ->
+  forall atts : list (list (chunk A)), atts <> [] -> complete A c (last atts []) (run A c atts []).
+Proof. exact retry_direct. Qed.
+Print Assumptions C12_complete_retry_direct_partial.
 
 (* the sequence that reaches the log is an order-preserving merge of the attempt's stdout and - unless `stderr:` is
    configured - its stderr: every byte of either stream is there, in order *)
@@ -81,3 +93,11 @@ Example C12_nonvacuous :
   dsk nat (run nat c [cs] []) (logpath nat (run nat c [cs] [])) = repeat 7 5000 ++ repeat 8 3000 /\
   dsk nat (run nat c [cs] []) P_STDERR = [1; 2; 3].
 Proof. exact complete_single_example. Qed.
+
+Example C12_retry_nonvacuous :
+  let c := {| c_stdout := false; c_stderr := true; c_output := false; c_script := true |} in
+  let atts := [[(Out, [1; 2]); (Err, [9])]; [(Out, [3])]; [(Err, [8]); (Out, [4; 5])]] in
+  c_stdout c = false /\ c_output c = false /\ atts <> [] /\
+  dsk nat (run nat c atts []) (logpath nat (run nat c atts [])) = [4; 5] /\
+  dsk nat (run nat c atts []) P_STDERR = [9; 8].
+Proof. exact retry_direct_example. Qed.
